@@ -447,6 +447,18 @@ fn tunnel_error_to_warn_header(
     }
 }
 
+/// Verification door: status code and extra headers a failed connection request is answered with
+#[cfg(trusttunnel_verif)]
+pub(crate) fn verif_error_response(
+    error: &tunnel::ConnectionError,
+    hostname: &str,
+) -> (u16, Vec<(String, String)>) {
+    (
+        tunnel_error_to_status_code(error).as_u16(),
+        tunnel_error_to_warn_header(error, hostname),
+    )
+}
+
 fn fail_request(
     stream: Box<dyn http_codec::Stream>,
     status: StatusCode,
